@@ -61,12 +61,18 @@ class Unsupported(Exception):
 
 
 class Interp:
-    def __init__(self, fa, graph):
+    def __init__(self, fa, graph, args=None):
+        """graph: an `apply` expression, or any expression together with the list of argument symbols."""
         self.Expr = fa.Expr
-        assert graph.kind == "apply", graph.kind
-        self.graph = graph
-        self.args = list(graph.operands[1:-1])
-        self.body = graph.operands[-1]
+        if args is None:
+            assert graph.kind == "apply", graph.kind
+            self.graph = graph
+            self.args = list(graph.operands[1:-1])
+            self.body = graph.operands[-1]
+        else:
+            self.graph = graph
+            self.args = list(args)
+            self.body = graph
         # topological order (iterative DFS, operands before users), deterministic
         order, seen = [], set()
         stack = [(self.body, False)]
@@ -225,6 +231,8 @@ class Interp:
                 for o in oa:
                     anyinf = anyinf | np.isinf(o)
                 flags["overflow"] |= np.isinf(ra) & ~anyinf
+                if k in ("divide", "remainder", "floor_divide") and len(oa) == 2:
+                    flags["overflow"] |= np.broadcast_to(oa[1] == 0, ra.shape)  # IEEE divide-by-zero event (also inf/0)
                 sub = (ra != 0) & (np.abs(ra) < fi.smallest_normal)
                 if k in ("multiply", "divide", "square", "sqrt") and oa:
                     nz = np.ones(ra.shape, bool)
